@@ -171,9 +171,9 @@ class AbstractDateTime(AnyAtomicType):
 
         if hour == 24 and minute == second == microsecond == 0:
             hour = 0
-            if year == 9999 and month == 12 and day == 31:
+            if month == 12 and day == 31 and not 0 <= year < 9999:
                 delta = _ZERO_DELTA
-                year = 10000
+                year = 1 if year == -1 else year + 1
                 month = 1
                 day = 1
             else:
